@@ -38,6 +38,17 @@ Theorem C14_remove_duplicates : forall c,
 Proof. exact dups_meets_spec. Qed.
 Print Assumptions C14_remove_duplicates.
 
+(* (1e) Generalized booleans: a test / predicate / sort predicate answers nil or ANY other object.  The
+   model and the specification compute with the boolean "the relation holds"; for every style of answer the
+   harness uses (t, a number, an argument, a string, a list, a mismatch index) that boolean is both what the
+   Go call sites decide (!= nil) and what the language means (not nil); a comparison with t would not be. *)
+Theorem C14_generalized_booleans : forall s b, go_decides (answer s b) = b /\ truthy (answer s b) = b.
+Proof. exact answer_decided. Qed.
+Print Assumptions C14_generalized_booleans.
+Theorem C14_only_t_is_not_truth : forall s, s <> TrT -> is_t_g (answer s true) = false /\ not_nil_g (answer s true) = true.
+Proof. exact is_t_differs. Qed.
+Print Assumptions C14_only_t_is_not_truth.
+
 (* (2) Uniformity over lists, vectors and strings: two calls that differ only in how the sequences are
    given (nil / list / vector / string: with_form) and are both inside the guard return the same value,
    for every function whose result the language determines. *)
